@@ -495,3 +495,73 @@ def payload_parser_init(u: U):
         u.check("C09.init.step_cap_is_read_limit", made[0][0] is pl and made[0][1] == comp and made[0][2] is limit,
                 "its per-step output cap is the read-buffer limit of this connection")
         u.check("C09.init.payload_is_buffer", isinstance(fields(p)["payload"], _DB), "the parser feeds the decoder, not the raw reader")
+
+
+# ---------------------------------------------------------------------------------------------------------------
+# multipart part bodies on the server: read(decode=True) / text() / json() / form()
+
+MPM = "aiohttp.multipart"
+FN_PART_READ = "multipart:BodyPartReader.read"
+
+
+@unit("C09", "part.read_bounded", functions=[f"{MPM}:BodyPartReader.read"])
+def part_read_bounded(u: U):
+    """BodyPartReader.read(decode=...): neither the raw part nor its decoded (inflated) form is ever accumulated beyond
+    client_max_size plus the piece in hand - the limit is tested as each piece arrives, not after everything was joined.
+    Raw loop: cut at an invariant; decoding: any number 0..n of decoded pieces of arbitrary lengths."""
+    from pyvc.registry import width
+
+    maxs = u.int("client_max_size", 0)
+    decode = u.choose(2, "decode") == 1
+    n_pieces = u.choose(width(3, 5) + 1, "decoded_pieces") if decode else 0
+    pieces = [u.bytes(f"decoded[{i}]") for i in range(n_pieces)]
+    at_eof0 = u.bool("at_eof")
+
+    class TooBig(Exception):
+        def __init__(self, limit):
+            self.limit = limit
+
+    def read_chunk(self, size):
+        def res():
+            fields(self)["_at_eof"] = u.bool("at_eof@chunk")
+            return u.bytes("raw_chunk")
+
+        return SAwait(result=res, name="read_chunk")
+
+    handed_out = []
+
+    async def decode_iter(self, data):
+        for i, p in enumerate(pieces):
+            handed_out.append(i)
+            yield p
+            # resumed: the consumer has taken piece i in and went on without refusing
+            held = sum((blen(q) for q in pieces[: i + 1]), 0)
+            u.check("C09.part.decoded_accumulation_bounded", held <= maxs,
+                    "decoded (inflated) part data is tested against client_max_size piece by piece: the reader asks for the "
+                    "next piece only while what it holds is within the limit - a small compressed part cannot be "
+                    "inflated completely in memory before the 413",
+                    witness={"pieces_taken": i + 1, "held": held, "client_max_size": maxs})
+
+    r = u.obj("BodyPartReader", {"_at_eof": at_eof0, "_client_max_size": maxs, "_max_size_error_cls": TooBig,
+                                 "chunk_size": 8192},
+              {"read_chunk": read_chunk, "decode_iter": lambda self, data: decode_iter(self, data)}, shared=False,
+              real=(MPM, "BodyPartReader"))
+    f = u.load(MPM, "BodyPartReader.read")
+
+    def inv(L):
+        return [("raw_within_limit", blen(L["data"]) <= maxs)]
+
+    def havoc(L):
+        # read_chunk (a stand-in here) is what ends the part: its effect on _at_eof is part of the loop state
+        fields(r)["_at_eof"] = u.bool("at_eof@loop")
+
+    u.loop(FN_PART_READ, 0, inv=inv, havoc=havoc, types={"data": lambda nm: SBytes.fresh(nm, bytearray, register=False)})
+    out = u.call(f, r, decode=decode)
+    if not out.ok:
+        u.check("C09.part.read.only_too_big", isinstance(out.exc, TooBig) and out.exc.limit is maxs, repr(out))
+        return
+    res = out.value
+    if tbool(at_eof0) is True:
+        return
+    u.check("C09.part.read.result_within_limit", Or(at_eof0, blen(res) <= maxs),
+            "what read() returns (raw or decoded) is within client_max_size")
